@@ -10,11 +10,15 @@
    memories, the Go algorithm G (these very memory functions, with its growing
    slice and frame-pointer pairs) shows exactly the values of the
    specification A in which every activation owns its variables — growth and
-   foreign frames never change a variable.  The operations through which a
-   closure aliases a frame are left to the run: there the real code deviates
-   (finding K1) in a way the list model of G cannot exhibit.  The check runs G,
-   A and the real memory.Type side by side on generated histories. *)
-Require Import Calc.Base Calc.Bytecode Calc.Value Calc.FloatText Calc.Compile Calc.VM Calc.MemProofs Calc.Mem18 Calc.MemRefine.
+   foreign frames never change a variable.  MemClosure.v and MemAlias.v extend
+   this to ALL sixteen operations: capturing the top frame as an alias into the
+   stack slice, copying a captured frame, the closure stack, reading a captured
+   variable (C18_go_memory_refines_activations_full).  Where the real Go slices
+   deviate from G — an alias taken before its slice was reallocated keeps the
+   old array (finding K1) — G raises its stale flag; the list model cannot
+   exhibit the deviation itself.  The check runs G, A and the real memory.Type
+   side by side on generated histories. *)
+Require Import Calc.Base Calc.Bytecode Calc.Value Calc.FloatText Calc.Compile Calc.VM Calc.MemProofs Calc.Mem18 Calc.MemRefine Calc.MemClosure Calc.MemAlias.
 Open Scope Z_scope.
 
 Lemma znth_zset_same {A} (l : list A) i v :
@@ -136,6 +140,39 @@ Theorem C18_step_keeps_simulation : forall gw aw o,
   snd (g_step gw o) = snd (a_step aw o) /\ Rw (fst (g_step gw o)) (fst (a_step aw o)).
 Proof. exact core_step. Qed.
 Print Assumptions C18_step_keeps_simulation.
+
+(* ---- histories of all sixteen operations, the aliasing ones included ---- *)
+Theorem C18_go_memory_refines_activations_full : forall ops,
+  Forall (fun ob => ob <> OIllegal) (a_run aw_init ops) ->
+  map (fun x => fst (fst x)) (g_run gw_init ops) = a_run aw_init ops.
+Proof. exact go_memory_refines_activations_full. Qed.
+Print Assumptions C18_go_memory_refines_activations_full.
+
+(* its invariant: the frame values of G (aliases and owned copies, wherever they are stored: handles or
+   closure stacks) denote the frame values of A, and serial numbers are never reused *)
+Theorem C18_full_step_keeps_simulation : forall gw aw o,
+  RW gw aw -> snd (a_step aw o) <> OIllegal ->
+  snd (g_step gw o) = snd (a_step aw o) /\ RW (fst (g_step gw o)) (fst (a_step aw o)).
+Proof. exact full_step. Qed.
+Print Assumptions C18_full_step_keeps_simulation.
+
+(* a captured frame is read through the closure stack while its activation is live, after a deeper call
+   returned, and as an owned copy after the activation ended: all legal, values as written *)
+Definition C18_alias_history : list mop :=
+  [MPush 0 (VInt 1); MPushFrame 0 1 3; MSet 0 1 (VInt 11); MCapture 0; MPushClosure 0 0; MClosure 0 1; MClosure 0 0;
+   MPush 0 (VInt 2); MPushFrame 0 1 130; MSet 0 129 (VInt 12); MClosure 0 1; MCapture 0; MPushClosure 0 1; MClosure 0 129;
+   MPopClosure 0; MPopFrame 0; MSet 0 2 (VInt 13); MClosure 0 2; MOwn 0; MPopClosure 0; MPopFrame 0;
+   MPushClosure 0 2; MClosure 0 2; MClosure 0 1; MClone 0 None; MClosure 1 0].
+
+Example C18_alias_nonvacuous :
+  forallb (fun ob => match ob with OIllegal => false | _ => true end) (a_run aw_init C18_alias_history) = true /\
+  existsb (fun o => negb (core_op o)) C18_alias_history = true /\
+  a_run aw_init C18_alias_history =
+  [ONone; ONone; ONone; ONone; ONone; OVal (VInt 11); OVal (VInt 1);
+   ONone; ONone; ONone; OVal (VInt 11); ONone; ONone; OVal (VInt 12);
+   ONone; ONone; ONone; OVal (VInt 13); ONone; ONone; ONone;
+   ONone; OVal (VInt 13); OVal (VInt 11); ONone; OVal (VInt 1)].
+Proof. repeat split; vm_compute; reflexivity. Qed.
 
 (* the hypotheses are met by a real history: nested calls of widths 3 and 130
    (past the first growth step), a write in the outer frame read back after the
